@@ -23,6 +23,7 @@ namespace YaraModel.Cb
 def Cond.holds (env : Nat → Bool) : Cond → Bool
   | .lit b => b
   | .str f => f
+  | .cnt _ gt => gt
   | .rule j => env j
   | .not c => !c.holds env
   | .and a b => a.holds env && b.holds env
@@ -75,6 +76,9 @@ def Msg.isModule : Msg → Bool
 def Msg.isRule : Msg → Bool
   | .ruleMatching _ => true | .ruleNotMatching _ => true | _ => false
 
+def Msg.isTooMany : Msg → Bool
+  | .tooManyMatches _ => true | _ => false
+
 /-- the rule a rule message is about -/
 def Msg.ruleIdx : Msg → Nat
   | .ruleMatching i => i | .ruleNotMatching i => i | _ => 0
@@ -90,6 +94,10 @@ def verdict (m : Msg) (a : Ret) : Option Rc :=
     match a with
     | .error => some .callbackError
     | _ => none
+  else if m.isTooMany then      -- capi.rst: "If your callback returns CALLBACK_CONTINUE, the string will be
+    match a with                --  disabled and scanning will continue, otherwise scanning will be halted."
+    | .cont => none
+    | _ => some .tooManyMatches
   else none
 
 structure Played where
@@ -108,6 +116,36 @@ def play : List Msg → List Ret → Played
 
 def specScan (rs : List Rule) (imports : List String) (fl : Flags) (script : List Ret) : List Msg × Rc :=
   let p := play (protocol rs imports fl) script
+  (p.trace, p.stopped.getD .success)
+
+/-! ### the too-many-matches warning
+
+  "If during the scan a string hits the maximum number of matches, your callback will be called once
+   with CALLBACK_MSG_TOO_MANY_MATCHES … message_data points to the string which caused the warning. If
+   your callback returns CALLBACK_CONTINUE, the string will be disabled and scanning will continue."
+  `events` lists the occurrences found in the data (string index per occurrence, scan order). -/
+
+/-- the warning for a string is due when an occurrence arrives while `limit` occurrences are recorded:
+    `seen` are the occurrences before it -/
+def tooManyMsgsFrom (limit : Nat) : List Nat → List Nat → List Msg
+  | _, [] => []
+  | seen, s :: es =>
+    (if seen.count s = limit then [Msg.tooManyMatches s] else []) ++ tooManyMsgsFrom limit (seen ++ [s]) es
+
+/-- one warning per overflowing string, in the order in which the strings overflow -/
+def tooManyMsgs (limit : Nat) (events : List Nat) : List Msg := tooManyMsgsFrom limit [] events
+
+/-- matches recorded for a string once the scan of the data is over: the string stops matching at
+    the limit, nothing else changes -/
+def specCount (limit : Nat) (events : List Nat) (s : Nat) : Nat := min (events.count s) limit
+
+/-- the whole message sequence of an undisturbed scan -/
+def fullProtocol (limit : Nat) (events : List Nat) (rs : List SRule) (imports : List String) (fl : Flags) : List Msg :=
+  tooManyMsgs limit events ++ protocol (rs.map (SRule.resolve (specCount limit events))) imports fl
+
+def specFullScan (limit : Nat) (events : List Nat) (rs : List SRule) (imports : List String) (fl : Flags)
+    (script : List Ret) : List Msg × Rc :=
+  let p := play (fullProtocol limit events rs imports fl) script
   (p.trace, p.stopped.getD .success)
 
 /-- the answer the callback gives to the k-th message -/
